@@ -211,3 +211,51 @@ func cloneInto(dst, src reflect.Value, seen map[uintptr]reflect.Value) {
 		dst.Set(src)
 	}
 }
+
+// DumpString renders a value deterministically, following pointers (used as a digest of results).
+func DumpString(v any) string {
+	var b []byte
+	b = dumpVal(b, reflect.ValueOf(v), 0)
+	return string(b)
+}
+
+func dumpVal(b []byte, v reflect.Value, depth int) []byte {
+	if !v.IsValid() || depth > 64 {
+		return append(b, "<nil>"...)
+	}
+	switch v.Kind() {
+	case reflect.Ptr, reflect.Interface:
+		if v.IsNil() {
+			return append(b, "nil"...)
+		}
+		b = append(b, '&')
+		return dumpVal(b, v.Elem(), depth+1)
+	case reflect.Struct:
+		if v.Type() == timeType {
+			return append(b, v.Interface().(time.Time).UTC().Format(time.RFC3339Nano)...)
+		}
+		b = append(b, '{')
+		for i := 0; i < v.NumField(); i++ {
+			if v.Type().Field(i).PkgPath != "" {
+				continue
+			}
+			b = append(b, v.Type().Field(i).Name...)
+			b = append(b, ':')
+			b = dumpVal(b, v.Field(i), depth+1)
+			b = append(b, ' ')
+		}
+		return append(b, '}')
+	case reflect.Slice, reflect.Array:
+		if v.Kind() == reflect.Slice && v.Type().Elem().Kind() == reflect.Uint8 {
+			return append(b, fmt.Sprintf("%x", v.Bytes())...)
+		}
+		b = append(b, '[')
+		for i := 0; i < v.Len(); i++ {
+			b = dumpVal(b, v.Index(i), depth+1)
+			b = append(b, ',')
+		}
+		return append(b, ']')
+	default:
+		return append(b, fmt.Sprint(v.Interface())...)
+	}
+}
